@@ -352,7 +352,9 @@ impl Interp {
                     name: Some(name.clone()), params: params.clone(), collect: *collect,
                     body: body.clone(), env: env.clone(), node: s.id,
                 });
-                self.declare(env, name, SV::plain(Val::Func(f)), s.id, true)?;
+                if name != "_" {
+                    self.declare(env, name, SV::plain(Val::Func(f)), s.id, true)?;
+                }
                 Ok(None)
             },
             SK::Return(e) => {
